@@ -1,6 +1,7 @@
 import Driver.Common
 import QlibcModel.HashTbl.Model
 import QlibcModel.HashTbl.Fault
+import QlibcModel.HashTbl.Args
 open Qlibc Qlibc.HashTbl Qlibc.MapFault
 
 namespace Driver.HashTbl
@@ -118,6 +119,12 @@ def step (st0 : St) (ws : List String) : St × String :=
       fin { st with cur := last, curValid := true }
         ("walk" ++ String.join (cs.map fun c => " " ++ showCur c) ++ " false ENOENT")
     | .error f => fin st (faultStr f)
+  -- the documented-invalid calls: the model's argument checks decide results and state
+  | ["inv"] =>
+    let r := runCalls invBattery t
+    fin { st with t := r.1 }
+      ("inv" ++ String.join (r.2.map fun (b, e) => s!" {if b then 1 else 0}:{e.name}") ++ " sz=99")
+  | ["lock"] => fin st s!"locked size {size t}"
   | ["end"] => fin { t := init 0, cur := Cursor.zero, curValid := true, ts := false } "end live=0 bad=0"
   | _ => fin st "bad-op"
 
